@@ -21,18 +21,19 @@ ASSUMPTIONS = ['publications concurrent with a subscription may or may not reach
 PROBES = ['resubscription', 'equal_content_queues_same_signal']
 PLAN = {
   'quick': {'strata': {'sub-pub': 5000}, 'wall_s': 300, 'chunk': 50, 'min_conclusive': 1000},
-  'thorough': {'strata': {'sub-pub': 150000}, 'wall_s': 900, 'chunk': 100, 'min_conclusive': 10000},
+  'thorough': {'strata': {'sub-pub': 150000}, 'wall_s': 900, 'chunk': 100, 'min_conclusive': 1000},
 }
 
 
 def generate(seed, stratum, tier):
   rng = random.Random(seed)
-  nq = rng.randrange(2, 6)
+  big = common.deep(rng)
+  nq = common.span(rng, 2, 6, big)
   prefill = rng.choice([0, 0, 1, 2])
   queues = [{'kind': rng.choice(['deque', 'deque', 'locking']), 'prefill': prefill if rng.random() < 0.8 else 0} for _ in range(nq)]
   sigs = ['SA', 'SB', 'SC'][:rng.randrange(1, 4)]
-  nclients = rng.randrange(1, 4)
-  total = rng.randrange(3, 26)
+  nclients = common.span(rng, 1, 4, big)
+  total = common.span(rng, 3, 26, big, 3)
   clients = [[] for _ in range(nclients)]
   clients[0].append(['start'])
   for _ in range(total):
